@@ -305,7 +305,7 @@ def _association_replay_plan(ob):
 
 # =========================================================================== SOCKS listener handshake (after the request is read)
 
-def spec_socks_handshake(ck):
+def spec_socks_handshake(ck, lifecycle=False):
     fn = ck.find(lambda: ck.db.method('SocksListener', 'handshake'), 'SocksListener::handshake')
     if fn is None:
         return
@@ -342,7 +342,15 @@ def spec_socks_handshake(ck):
     def enqueue(ctx):
         ctx.st.trace.append(('enqueue',))
         return Future('sym_result', ['enqueue'])
+    def create_context(ctx):
+        ctx.st.trace.append(('create_context',))
+        return Future('the-context', [])
+
+    @CA.awaiter('the-context')
+    def _aw3(ctx, fut):
+        return Ref(ctx.st.alloc(Opaque('tokio::sync::RwLock<context::Context>', 'ctx')), ())
     for rx, f in ((r'SocksRequest::<.*>::read_from::<|SocksRequest::read_from', read_from), (r'AuthData::check$', check),
+                  (r'GlobalState::create_context$', create_context),
                   (r'ContextRefOps>::enqueue', enqueue), (r'ContextRefOps>::on_error', traced_unit_future('on_error')),
                   (r'setup_udp_session$', lambda ctx: (ctx.st.trace.append(('setup_udp_session',)), Future('sym_result', ['udp']))[1])):
         ex.overrides.append((re.compile(rx), f))
@@ -361,6 +369,13 @@ def spec_socks_handshake(ck):
         if o.status != 'returned':
             continue
         T = [e[0] for e in o.trace]
+        if lifecycle and 'create_context' in T:
+            # C16: a connection that was registered (it has an id, it is listed as live) and is given up during the handshake ends in
+            # exactly one terminal state with the error text -- on_error records both; a connection handed to the dispatcher is the
+            # dispatcher's (its terminal state is decided there).  Which step failed names the obligation.
+            step = 'when-the-request-cannot-be-read' if 'auth.check' not in T and 'enqueue' not in T and 'on_error' not in T and 'setup_udp_session' not in T \
+                else ('when-the-udp-relay-socket-cannot-be-set-up' if 'setup_udp_session' in T and 'enqueue' not in T else 'otherwise')
+            ex.prove(o, 'C16/socks-listener/a-registered-connection-ends-routed-or-in-an-error-state/' + step, 'enqueue' in T or 'on_error' in T)
         if 'read_request' not in T:
             continue
         n += 1
@@ -384,6 +399,108 @@ def spec_socks_handshake(ck):
     ck.bounds['SocksListener::handshake'] = 'one connection after accept; request = any cmd / credentials; symbolic auth verdict; TLS off; awaits complete'
 
 
+def spec_http_handshake_lifecycle(ck):
+    """h11c_handshake (HTTP and QUIC listeners) is handed a connection that is already registered.  Whatever the request turns out
+    to be -- unreadable, not CONNECT, an unknown Proxy-Protocol, a target that does not parse, a frame channel that cannot be
+    created -- the connection either goes to the dispatcher (enqueue) or its record is closed with an error state and the error
+    text (ContextRefOps::on_error).  The request is modelled by its outcomes: every comparison of a request word and every
+    fallible step is a free boolean."""
+    fn = ck.find(lambda: ck.db.free('h11c_handshake'), 'h11c_handshake')
+    if fn is None:
+        return
+    ex = ck.engine(loop_bound=4, call_depth=8)
+    ex.benign_havoc = harness.IRRELEVANT
+    ex.no_inline = [re.compile(r'Context::|HttpResponse::new|HttpRequest::header')]
+    st = State()
+    choices = {}
+
+    def choice(ctx, what):
+        n = sum(1 for e in ctx.st.trace if e[0] == 'choice' and e[1] == what)
+        b = z3.Bool('%s_%d' % (what, n))
+        choices['%s_%d' % (what, n)] = b
+        ctx.st.trace.append(('choice', what))
+        return b
+
+    def sym_result_of(what, okv=None):
+        def f(ctx):
+            b = choice(ctx, what + '_succeeds')
+            return Agg('Result', {}, simp(z3.If(b, BV(0, 64), BV(1, 64))), {0: {0: okv if okv is not None else Opaque(what, what)}, 1: {0: Opaque('easy_error::Error', what + '-error')}}, ctx.ex.si.enums['Result'])
+        return f
+
+    def read_from(ctx):
+        return Future('http-request', [])
+
+    @CA.awaiter('http-request')
+    def _aw(ctx, fut):
+        ctx.st.trace.append(('read_request',))
+        return sym_result_of('reading_the_request', Agg('HttpRequest', {0: Bytes.symbolic('method', 'string'), 1: Bytes.symbolic('resource', 'string'), 2: Bytes.symbolic('version', 'string'),
+                                                                             3: SeqV.from_items([], '(String, String)', 'vec')}))(ctx)
+
+    def write_to(ctx):
+        ctx.st.trace.append(('reply-written',))
+        return Future('sym_result', ['client_write'])
+
+    def enqueue(ctx):
+        ctx.st.trace.append(('enqueue',))
+        return Future('sym_result', ['enqueue'])
+
+    def frames(ctx):
+        ctx.st.trace.append(('create_frames',))
+        return Future('frames-result', [])
+
+    @CA.awaiter('frames-result')
+    def _aw2(ctx, fut):
+        return sym_result_of('creating_the_frame_channel')(ctx)
+    for rx, f in ((r'HttpRequest::read_from$', read_from), (r'HttpResponse::write_to$', write_to), (r'ContextRefOps>::enqueue', enqueue),
+                  (r'ContextRefOps>::on_error', traced_unit_future('on_error')),
+                  (r'eq_ignore_ascii_case$', lambda ctx: Bool(choice(ctx, 'request_word_matches'))),
+                  (r'<impl str>::parse::<(?:context::)?TargetAddress>$', sym_result_of('parsing_the_target', Opaque('TargetAddress', 'target'))),
+                  (r'<impl str>::is_empty$', lambda ctx: Bool(choice(ctx, 'header_is_empty'))),
+                  (r'HttpRequest::header$', lambda ctx: Ref(ctx.st.alloc(Bytes.symbolic('header', 'str')), ())),
+                  (r'^<FrameFn as FnOnce<.*>>::call_once$', frames)):
+        ex.overrides.append((re.compile(rx), f))
+    ex.inputs = choices
+    args = [Ref(st.alloc(Opaque('tokio::sync::RwLock<context::Context>', 'ctx')), ()), Opaque('Sender', 'queue'), Opaque('FrameFn', 'ff')]
+    outs = run_async(ex, st, fn, args)
+    n = 0
+    for o, r in outs:
+        if o.status != 'returned':
+            continue
+        T = [e[0] for e in o.trace]
+        if 'read_request' not in T:
+            continue
+        n += 1
+        ch = [e[1] for e in o.trace if e[0] == 'choice']
+        step = 'when-the-request-cannot-be-read' if ch == ['reading_the_request_succeeds'] and 'reply-written' not in T else \
+            ('when-the-request-is-refused-with-a-400' if 'reply-written' in T else
+             ('when-the-frame-channel-cannot-be-created' if 'create_frames' in T else ('when-the-target-does-not-parse' if 'parsing_the_target_succeeds' in ch else 'otherwise')))
+        if 'enqueue' in T:
+            step = 'otherwise'
+        o.env['inputs'] = dict(o.env.get('inputs', {}), **choices)
+        ex.prove(o, 'C16/http-handshake/a-registered-connection-ends-routed-or-in-an-error-state/' + step, 'enqueue' in T or 'on_error' in T)
+    if n < 3:
+        ck.add('C16/http-handshake/reachability', 'vacuous', 'only %d handshake outcomes explored' % n)
+    for f in ex.findings:
+        if not hasattr(f, 'target'):
+            f.target = 'h11c_handshake (lifecycle)'
+    ck.plans.append(_http_lifecycle_replay_plan)
+    ck.absorb(ex, 'h11c_handshake (lifecycle)', [o for o, _ in outs])
+    ck.bounds['http-handshake-lifecycle'] = 'one connection; the request by its outcomes: readable or not, each word comparison either way, target parses or not, reply writes / frame channel / enqueue succeed or fail'
+
+
+def _http_lifecycle_replay_plan(ob):
+    if (ob.target or '') != 'h11c_handshake (lifecycle)':
+        return None
+    lab = ob.label
+    kinds = {'when-the-request-cannot-be-read': ('garbage', 'hangup'), 'when-the-request-is-refused-with-a-400': ('get', 'bad-protocol'),
+             'when-the-target-does-not-parse': ('bad-target',), 'when-the-frame-channel-cannot-be-created': ('udp-no-channel',)}
+    for k, v in kinds.items():
+        if lab.endswith(k):
+            return 'h11c', [{'driver': 'handshake_failure_record', 'args': {'kind': x}} for x in v], \
+                lambda o: o.get('record_found') is True and o.get('routed') is False and o.get('record_ends_in_a_terminal_state_with_text') is False
+    return None
+
+
 def _socks_listener_replay_plan(ob):
     """a real SocksListener (credentials required, one configured user) handshakes with a scripted SOCKS5 client over loopback"""
     if (ob.target or '') != 'SocksListener::handshake' or ob.finding is None:
@@ -391,6 +508,10 @@ def _socks_listener_replay_plan(ob):
     i = ob.finding.inputs or {}
     cmd = i.get('cmd', 1) if isinstance(i.get('cmd', 1), int) else 1
     udp = bool(i.get('allow_udp', True))
+    if ob.label.startswith('C16/socks-listener/a-registered-connection-ends-routed-or-in-an-error-state/'):
+        kinds = ('udp_setup_fails',) if 'udp-relay-socket' in ob.label else ('garbage', 'hangup')
+        return 'sockslisten', [{'driver': 'handshake_failure_record', 'args': {'kind': k}} for k in kinds], \
+            lambda o: o.get('record_found') is True and o.get('routed') is False and o.get('record_ends_in_a_terminal_state_with_text') is False
     if ob.label == 'C07/socks-listener/routed-only-after-credentials-check-passed':
         cases = [{'driver': 'socks_listener', 'args': {'cmd': cmd, 'allow_udp': udp, 'creds': c}} for c in ('wrong', 'none')]
         # SOCKS4 / 4a clients (a user id is all they present): the command of a version 4 request is CONNECT
